@@ -420,6 +420,9 @@ pub struct DocCase {
     /// An inline configuration of a test wins over it (documented precedence: test case > document defaults).
     #[serde(default)]
     pub doc_stream: String,
+    /// Markdown document run with `--cram-compat` (single-script executor, default stream `combined`)
+    #[serde(default)]
+    pub cram_compat: bool,
     pub tests: Vec<DocTest>,
     #[serde(default)]
     pub family: String,
@@ -469,10 +472,41 @@ fn effective_stream(doc: &DocCase, t: &DocTest) -> &'static str {
                 match configured {
                     "stderr" => "stderr",
                     "combined" => "combined",
+                    "stdout" => "stdout",
+                    // nothing configured: Markdown defaults to stdout, with --cram-compat to combined
+                    _ if doc.cram_compat => "combined",
                     _ => "stdout",
                 }
             }
         }
+    }
+}
+
+/// the single-script executor runs all test cases in one bash process
+fn single_script(doc: &DocCase) -> bool {
+    doc.format == "cram" || doc.cram_compat
+}
+
+/// `--cram-compat` Markdown whose test cases do not agree on one stream: the single-script executor cannot
+/// serve that; the base behaviour is to refuse the document
+fn is_mixed(doc: &DocCase) -> bool {
+    if !(doc.cram_compat && doc.format == "md" && doc.cli_stream.is_empty()) {
+        return false;
+    }
+    let mut it = doc.tests.iter().map(|t| effective_stream(doc, t));
+    match it.next() {
+        Some(first) => it.any(|s| s != first),
+        None => false,
+    }
+}
+
+fn fmt_label(doc: &DocCase) -> &'static str {
+    if doc.format == "cram" {
+        "cram"
+    } else if doc.cram_compat {
+        "md-cc"
+    } else {
+        "md"
     }
 }
 
@@ -485,24 +519,37 @@ fn stream_lines<'a>(t: &'a DocTest, stream: &str) -> Vec<&'a String> {
 }
 
 fn gen_doc(rng: &mut Rng) -> DocCase {
-    let format = if rng.chance(3, 5) { "md" } else { "cram" }.to_string();
+    let which = rng.weighted(&[45, 30, 25]);
+    let format = if which == 1 { "cram" } else { "md" }.to_string();
     let mut doc = DocCase {
         format: format.clone(),
         cli_stream: String::new(),
         doc_stream: String::new(),
+        cram_compat: which == 2,
         tests: vec![],
         family: String::new(),
     };
-    let inline = format == "md" && rng.chance(2, 3);
-    if !inline && rng.chance(1, 2) {
+    // --cram-compat Markdown: one stream for all test cases (flag, the same inline configuration everywhere, or
+    // nothing), or test cases that disagree
+    let cc_mixed = doc.cram_compat && rng.chance(2, 5);
+    let cc_uniform: Option<&str> = if doc.cram_compat && !cc_mixed && rng.chance(2, 3) {
+        Some(*rng.pick(&["", "stdout", "stderr", "combined"]))
+    } else {
+        None
+    };
+    let inline = format == "md" && !doc.cram_compat && rng.chance(2, 3);
+    if !inline && !cc_mixed && cc_uniform.is_none() && rng.chance(1, 2) {
         doc.cli_stream = if rng.bool() { "combine" } else { "no-combine" }.into();
     }
-    if format == "md" && doc.cli_stream.is_empty() && rng.chance(1, 3) {
+    if format == "md" && !doc.cram_compat && doc.cli_stream.is_empty() && rng.chance(1, 3) {
         doc.doc_stream = rng.pick(&["stdout", "stderr", "combined"]).to_string();
     }
     let n = 1 + rng.below(5);
     // families: no signal / one signalled command at a chosen position
     let signal_at = if rng.chance(1, 2) { Some(rng.below(n)) } else { None };
+    // mixed documents: mostly "a separate stream first, combined (the default) later", mostly without a signal
+    let signal_at = if cc_mixed && rng.chance(3, 4) { None } else { signal_at };
+    let cc_first_separate = cc_mixed && rng.chance(2, 3);
     doc.family = if signal_at.is_some() { "signal" } else { "codes" }.into();
     for i in 0..n {
         let mut t = DocTest {
@@ -520,6 +567,22 @@ fn gen_doc(rng: &mut Rng) -> DocCase {
         if inline {
             t.stream = ["", "stdout", "stderr", "combined"][rng.weighted(&[2, 1, 3, 2])].to_string();
         }
+        if let Some(u) = cc_uniform {
+            t.stream = u.to_string();
+        }
+        if cc_mixed {
+            t.stream = if !cc_first_separate {
+                ["", "stdout", "stderr", "combined"][rng.weighted(&[3, 3, 2, 1])].to_string()
+            } else if i == 0 {
+                ["stdout", "stderr"][rng.below(2)].to_string()
+            } else {
+                ["", "combined", "stdout"][rng.weighted(&[3, 2, 1])].to_string()
+            };
+            if t.err.is_empty() {
+                // the streams have to differ for the choice of the stream to matter
+                t.err = vec![format!("e1 {}", rng.pick(WORDS))];
+            }
+        }
         let eff = effective_stream(&doc, &t);
         let selected: Vec<String> = stream_lines(&t, eff).into_iter().cloned().collect();
         let other: Vec<String> = match eff {
@@ -528,7 +591,8 @@ fn gen_doc(rng: &mut Rng) -> DocCase {
             _ => t.out.clone(),
         };
         // expectations: accept / describe the other stream / one-edit rejections / nothing / anything
-        t.exps = match rng.weighted(&[45, 15, 8, 8, 8, 8, 8]) {
+        let w_other = if cc_mixed { 60 } else { 15 };
+        t.exps = match rng.weighted(&[45, w_other, 8, 8, 8, 8, 8]) {
             0 => describe(rng, &selected),
             1 => describe(rng, &other),
             2 => {
@@ -565,7 +629,7 @@ fn gen_doc(rng: &mut Rng) -> DocCase {
             t.expected = *rng.pick(&[None, None, Some(0), Some(1), Some(3)]);
         } else {
             let code = *rng.pick(CODES);
-            t.behaviour = if format == "md" && rng.bool() { format!("exit:{code}") } else { format!("subexit:{code}") };
+            t.behaviour = if format == "md" && !doc.cram_compat && rng.bool() { format!("exit:{code}") } else { format!("subexit:{code}") };
             t.expected = match rng.weighted(&[60, 15, 25]) {
                 0 => {
                     if code == 0 && rng.bool() {
@@ -587,6 +651,19 @@ fn gen_doc(rng: &mut Rng) -> DocCase {
             }
         }
         doc.tests.push(t);
+    }
+    if cc_mixed {
+        if doc.tests.len() < 2 {
+            let mut t = doc.tests[0].clone();
+            t.stream = if effective_stream(&doc, &t) == "stdout" { "combined" } else { "stdout" }.into();
+            doc.tests.push(t);
+        }
+        if !is_mixed(&doc) {
+            let first = effective_stream(&doc, &doc.tests[0]);
+            let l = doc.tests.len() - 1;
+            doc.tests[l].stream = if first == "stdout" { "" } else { "stdout" }.into();
+        }
+        doc.family = format!("{}+mixed-streams", doc.family);
     }
     doc
 }
@@ -666,7 +743,7 @@ fn doc_sample(doc: &DocCase) -> Value {
                    "expected_exit_code": t.expected, "inline_output_stream": t.stream})
         })
         .collect();
-    json!({"part": "e2e", "format": doc.format, "cli": doc.cli_stream, "document_default_stream": doc.doc_stream, "family": doc.family, "tests": tests})
+    json!({"part": "e2e", "format": doc.format, "cli": doc.cli_stream, "document_default_stream": doc.doc_stream, "cram_compat": doc.cram_compat, "family": doc.family, "tests": tests})
 }
 
 fn outcome_title(o: &Value) -> String {
@@ -696,7 +773,8 @@ fn check_e2e(env: &Env, doc: &DocCase) -> Checked {
     if doc.tests.is_empty() {
         return Checked::out_of_scope("empty document");
     }
-    let fmt = doc.format.as_str();
+    let fmt = fmt_label(doc);
+    let mixed = is_mixed(doc);
     let sb = Sandbox::new(env, "c05");
     let r = render_doc(doc, &sb);
     for (name, content) in &r.payloads {
@@ -709,6 +787,9 @@ fn check_e2e(env: &Env, doc: &DocCase) -> Checked {
         "combine" => cmd = cmd.arg("--combine-output"),
         "no-combine" => cmd = cmd.arg("--no-combine-output"),
         _ => {}
+    }
+    if doc.cram_compat {
+        cmd = cmd.arg("--cram-compat");
     }
     let run = cmd.arg(file).run(env);
     let markers = sb.markers();
@@ -731,7 +812,10 @@ fn check_e2e(env: &Env, doc: &DocCase) -> Checked {
     let executed_signal = signal_pos.is_some_and(ran);
 
     let mut ck = Checked::held().bucket("e2e:doc").bucket(format!("e2e:fmt={fmt}"));
-    let mut shape_src = format!("{fmt}|{}", doc.cli_stream);
+    let mut shape_src = format!("{fmt}|{}|{mixed}", doc.cli_stream);
+    if mixed {
+        ck = ck.bucket("e2e:mixed-streams");
+    }
     let mut nontrivial = false;
     if let Some(s) = signal_pos {
         let pos = if n == 1 {
@@ -757,7 +841,17 @@ fn check_e2e(env: &Env, doc: &DocCase) -> Checked {
     };
     let Some(outcomes) = outcomes else {
         // no per-test report at all
-        if fmt == "cram" && executed_signal {
+        if mixed && code != 0 {
+            // refused as a whole (the base behaviour): nothing is reported as succeeded, the run is not a success
+            for t in &doc.tests {
+                shape_src.push_str(&format!("|{}", effective_stream(doc, t)));
+            }
+            return ck
+                .bucket("e2e:mixed-refused")
+                .bucket(format!("e2e:exit={code}"))
+                .shape(true, hash_bytes(shape_src.as_bytes()));
+        }
+        if single_script(doc) && executed_signal {
             // by design the single script is aborted as a whole: nothing is reported as succeeded;
             // the run must not look like a success
             if code == 0 {
@@ -833,6 +927,10 @@ fn check_e2e(env: &Env, doc: &DocCase) -> Checked {
         if actual != e {
             nontrivial |= acc;
             ck = ck.bucket("e2e:wrong-code");
+            if mixed && !success {
+                // a document the single-script executor cannot serve: only "not a success" is decided
+                continue;
+            }
             if kinds.len() != 1 || kinds[0] != "invalid_exit_code" {
                 let got = if kinds.is_empty() { "nothing".to_string() } else { kinds.join("+") };
                 return Checked::violated(
@@ -853,7 +951,10 @@ fn check_e2e(env: &Env, doc: &DocCase) -> Checked {
             continue;
         }
         if acc {
-            if det == Det::Member {
+            if mixed {
+                // what the combined stream of a script run with separate streams is, is not decided
+                ck = ck.bucket("e2e:mixed-pass-direction-unjudged");
+            } else if det == Det::Member {
                 if !success {
                     let got = if kinds.is_empty() { "nothing".to_string() } else { kinds.join("+") };
                     return Checked::violated(
@@ -974,7 +1075,9 @@ impl Monitor for C05 {
             ("validate:no-code".into(), tier.pick(1_000, 20_000)),
             ("e2e:doc".into(), tier.pick(60, 200)),
             ("e2e:fmt=md".into(), tier.pick(20, 80)),
-            ("e2e:fmt=cram".into(), tier.pick(20, 60)),
+            ("e2e:fmt=cram".into(), tier.pick(15, 50)),
+            ("e2e:fmt=md-cc".into(), tier.pick(12, 40)),
+            ("e2e:mixed-refused".into(), tier.pick(6, 15)),
             ("e2e:signal-executed".into(), tier.pick(15, 50)),
             ("e2e:signal-pos=first".into(), tier.pick(3, 10)),
             ("e2e:signal-pos=middle".into(), tier.pick(3, 10)),
@@ -991,6 +1094,7 @@ impl Monitor for C05 {
             "e2e ground truth for 'did not run' is the marker log; bash 5.2: kill -KILL/-TERM/-SEGV/-ABRT $$ ends the shell without an exit code (a 'survived' marker puts the case out of scope)".into(),
             "Cram documents with an executed signalled command are aborted as a whole by design: only 'nothing is a success' and 'exit status != 0' are judged there".into(),
             "exit code 80 (skip) and timeouts are not generated (C15, C14)".into(),
+            "Markdown under --cram-compat (label md-cc): with one stream for all test cases (flag, the same inline configuration everywhere, or nothing = combined) it is judged like a Cram document for that stream; when the test cases disagree on the stream the single-script executor cannot serve the document: a refusal (no report, exit != 0) holds, and if results are reported only 'a success needs the right exit code and its own configured stream accepted' is judged (the pass direction is not decided there)".into(),
         ];
         p
     }
